@@ -368,6 +368,10 @@ def explore(rng, n):
         ops.append(mono("qchisq", SLACK_ROUND, (g1, v, 0.0), (g2, v, 0.0)))
         ops.append(inv("chisq", TOL_GAMMA, g2, v))
     refs = scipy_refs([(f, a, b, c) for (f, a, b, c, _) in want])
+    if refs is None:
+        # a reported gap, not a silent one: the accuracy clause is not explored in this run
+        sys.stderr.write("[gens/C08] GAP: no reference values (%s): the x.acc accuracy ops are not generated, "
+                         "the accuracy clause of C08 is NOT explored in this run\n" % SCIPY_NOTE["status"])
     if refs is not None:
         for (f, a, b, c, tol), r in zip(want, refs):
             if r == r:
@@ -639,6 +643,7 @@ def coverage_extra(cases, answers):
     out = branch_coverage(cases)
     out.update({"search_ops": counts, "search_worst_deviation": {k: float("%.3g" % v) for k, v in sorted(worst.items())},
             "search_unparsed_or_raised": raised, "search_reference": SCIPY_NOTE["status"],
+            "search_reference_gap": not SCIPY_NOTE["status"].startswith("ok"),
             "search_note": "x.* ops are exploration of the numeric kernels on grids/random points (accuracy vs scipy.special, "
                            "closed-form special cases, identities, monotonicity, inverse relations); they support, and are not "
                            "part of, obligations/discharged"})
